@@ -6,6 +6,7 @@ import (
 	"os"
 	"path/filepath"
 
+	"k8s.io/gengo/args"
 	"k8s.io/gengo/generator"
 )
 
@@ -36,4 +37,11 @@ func c15Dup(s *generator.SnippetWriter, w io.Writer) *generator.SnippetWriter { 
 func c15Append(s *generator.SnippetWriter, r io.Reader) error                 { panic("v1 has no Append") }
 func c15Merge(s *generator.SnippetWriter, r io.Reader, o *generator.SnippetWriter) error {
 	panic("v1 has no Merge")
+}
+
+func c09boilerplate(path, buildTag, genBy string) ([]byte, error) {
+	a := args.Default()
+	a.GoHeaderFilePath = path
+	a.GeneratedByCommentTemplate = genBy
+	return a.LoadGoBoilerplate()
 }
